@@ -100,10 +100,10 @@ prop("C22", "KT", "model_checking",
      text="(K) Kani/CBMC on the real Module: every special-mode operator accepted by FunctionModifier::inject_at / add_instr_at sets has_special_instr (so that encoding resolves it), for each special mode; empty block alternates too. (T) every accepted special-mode probe, issued through each of the five public API paths on the body family, must be present in the function the real encoder emits, and all paths must emit the same function; a rejected injection must be rejected by a panic at the call, not later.",
      technique="Kani/CBMC bounded model checking of the has_special_instr bookkeeping + presence / cross-path validation of the real encoder's output",
      outside="the iterator paths under Kani (out of memory; covered natively by engine T); " + T_OUT)
-prop("C05", "KT", "model_checking",
-     text="(K) Kani/CBMC on the real generic re-indexing code: a second recalculate_ids on an already re-organised index space (what a second encode() executes) must leave the entity order unchanged and map every already-rewritten reference to itself. (T) the real Module::encode is called twice on instrumented modules of the family and both outputs must be byte-identical.",
-     technique="Kani/CBMC bounded model checking of the second re-indexing pass + byte equality of two consecutive real encodings over a bounded plan family",
-     outside="edit histories on real modules followed by two encodings (only the generic re-index core is covered, on light types); globals/memories instantiations are covered through the same generic code; " + T_OUT)
+prop("C05", "KTM", "model_checking",
+     text="(K) Kani/CBMC on the real generic re-indexing code: a second recalculate_ids on an already re-organised index space (what a second encode() executes) must leave the entity order unchanged and map every already-rewritten reference to itself. (T) the real Module::encode is called twice on instrumented modules of the family and both outputs must be byte-identical. (M) the real Module::encode is called twice after every module-level edit history of <= 2 (quick) / 3 (thorough) steps of engine M's deletion/addition menu on its base module; the second output must equal the first (no solver involved in this part: it reproduces K's counterexamples through the public API and pins which histories are affected).",
+     technique="Kani/CBMC bounded model checking of the second re-indexing pass + byte equality of two consecutive real encodings over a bounded plan family and over bounded-exhaustive module-level edit histories",
+     outside="globals/memories instantiations of the generic re-index code are covered through the same generic code on light types; " + T_OUT)
 
 
 K_IDX_TEXT = ("Bounded model checking of the wirm-owned index machinery, as a chain: (1) K-ops: one public edit operation with symbolic arguments on a real Module re-establishes the reachable-state invariant Inv and returns ids that designate the added entity; (2) K-reindex: from EVERY state satisfying Inv (<= 4 entities quick / 5 thorough, import list of N+1 entries) the real reorganise_generic / get_mapping_generic / recalculate_ids keep exactly the live entities, put imports first, map each old id to the final position of the same entity and agree with the order in which the import section emits function imports; (3) K-opmap: for every wasmparser Operator variant (617, field-name oracle) with symbolic immediates the real fix_op_id_mapping pushes each reference through the map of its own index space exactly once and changes nothing else; a stale reference panics. ")
@@ -124,12 +124,13 @@ prop("C08", "KM", "model_checking", text=K_IDX_TEXT + "For C08: all 117 memory-i
      technique="z3 equivalence of the instantiation semantics of the real encoder's output with a label-based reference model over bounded-exhaustive edit histories (engine M) + Kani/CBMC bounded model checking (K-ops on memories, K-reindex, K-opmap over every memarg/mem/src_mem/dst_mem operator)", outside=K_IDX_OUT + "" + M_OUT)
 prop("C09", "KM", "model_checking", text=K_IDX_TEXT + "For C09: deleted entities disappear and have NO mapping (R1/R3), every other entity keeps its identity; a reference to an unmapped index panics in fix_op_id_mapping for every referencing operator (expect-panic harnesses: the code after the call is unreachable); delete_func/global/memory flag exactly the addressed entity and its import entry; ModuleExports::delete flags exactly that export." + M_TEXT,
      technique="z3 equivalence of the instantiation semantics of the real encoder's output with a label-based reference model over bounded-exhaustive edit histories (engine M) + Kani/CBMC bounded model checking (K-reindex R1/R3, K-opmap stale-reference harnesses, K-ops deletions)", outside=K_IDX_OUT + "; the emission loops honouring the deleted flags" + M_OUT)
-prop("C10", "K", "model_checking", text=K_IDX_TEXT + "For C10: Inv contains the states replace_import_in_module produces (an original import position holding a local function whose import entry is flagged deleted, incl. subsequently deleted); K-reindex decides that every such state is re-indexed with all identities kept; K-ops decides convert_import_fn_to_local itself (the function BOUND to the given ImportsID becomes the local one - also after another function was deleted - exactly that import entry is flagged, Inv holds).",
-     technique="Kani/CBMC bounded model checking (K-reindex over Inv incl. import->local states, K-ops add/delete)", outside=K_IDX_OUT)
-prop("C11", "K", "model_checking", text=K_IDX_TEXT + "For C11: Inv contains local->import conversions (an import-kind entity after the original import region bound to an added entry); R5 decides the import-section order agreement for them; K-ops decides convert_local_fn_to_import itself (exactly that local becomes an import bound to a new entry of the requested type, an import is refused, Inv holds).",
-     technique="Kani/CBMC bounded model checking (K-reindex R1-R3,R5 over Inv incl. local->import states, K-ops add_import)", outside=K_IDX_OUT)
-prop("C29", "K", "model_checking", text="Bounded model checking of the naming path owned by wirm: set_fn_name on a real Module (mixed import kinds, after add_import_func) names exactly the function the id designates and the import entry it is bound to; K-reindex carries entities (and therefore the names stored in them) to their final positions and R5 fixes the order in which import names are emitted.",
-     technique="Kani/CBMC bounded model checking (K-ops set_fn_name, K-reindex)", outside="local / global / label name maps are stored at parse time and re-emitted verbatim (mod.rs:1750-1759): no wirm code touches them between parse and encode, so there is nothing to execute symbolically - whether they SHOULD be re-indexed after edits is exactly what this machinery cannot observe; function-name emission lines in encode_internal")
+prop("C10", "KM", "model_checking", text=K_IDX_TEXT + "For C10: Inv contains the states replace_import_in_module produces (an original import position holding a local function whose import entry is flagged deleted, incl. subsequently deleted); K-reindex decides that every such state is re-indexed with all identities kept; K-ops decides convert_import_fn_to_local itself (the function BOUND to the given ImportsID becomes the local one - also after another function was deleted - exactly that import entry is flagged, Inv holds)." + M_TEXT,
+     technique="z3 equivalence of the instantiation semantics of the real encoder's output with a label-based reference model over bounded-exhaustive edit histories (engine M) + Kani/CBMC bounded model checking (K-reindex over Inv incl. import->local states, K-ops add/delete)", outside=K_IDX_OUT + M_OUT)
+prop("C11", "KM", "model_checking", text=K_IDX_TEXT + "For C11: Inv contains local->import conversions (an import-kind entity after the original import region bound to an added entry); R5 decides the import-section order agreement for them; K-ops decides convert_local_fn_to_import itself (exactly that local becomes an import bound to a new entry of the requested type, an import is refused, Inv holds)." + M_TEXT,
+     technique="z3 equivalence of the instantiation semantics of the real encoder's output with a label-based reference model over bounded-exhaustive edit histories (engine M) + Kani/CBMC bounded model checking (K-reindex R1-R3,R5 over Inv incl. local->import states, K-ops add_import)", outside=K_IDX_OUT + M_OUT)
+prop("C29", "KM", "model_checking", text="Bounded model checking of the naming path owned by wirm: set_fn_name on a real Module (mixed import kinds, after add_import_func) names exactly the function the id designates and the import entry it is bound to; K-reindex carries entities (and therefore the names stored in them) to their final positions and R5 fixes the order in which import names are emitted. In addition (engine M): the base module carries a complete name section (function, global and local names); after every history of <= 2 (quick) / 3 (thorough) index-shifting edits and naming calls the real encoder's name section is decoded and z3 decides, for all host values, that the entity each function / global / local name is attached to is the entity it was attached to in the input or by the naming call (names of deleted entities are gone).",
+     technique="z3 equivalence of 'which entity carries this name' between the real encoder's output and a label-based reference model over bounded-exhaustive edit histories (engine M) + Kani/CBMC bounded model checking (K-ops set_fn_name, K-reindex)", outside="label, type, table, memory, element, data, field and tag name maps; module name" + M_OUT)
+
 prop("C30", "KM", "model_checking", text="Bounded model checking on the real Module: add_global / add_imported_global / add_local_memory / add_import_memory / add_export_func / add_export_mem / add_data store exactly the requested types, limits, payloads and initialisers and return ids designating the added item; mod_global_init_expr changes only the addressed initialiser; the initialiser bytes are exact for all constants (K-const) and the content type survives both encoders (K-conv)." + M_TEXT,
      technique="z3 equivalence of the instantiation semantics of the real encoder's output with a label-based reference model over bounded-exhaustive edit histories (engine M) + Kani/CBMC bounded model checking (K-ops additions, K-const, K-conv)", outside="section emission in encode_internal (wasm-encoder calls)" + M_OUT)
 
@@ -150,3 +151,8 @@ def generated_harness_files(pid, tier, seed):
         src, _names = genopcode.generate()
         out["kopcode_gen.rs"] = src
     return out
+
+prop("C12", "KM", "translation_validation",
+     text="(K) the parts of the builder that CBMC reaches are decided by Kani harnesses shared with other properties: every opcode helper appends exactly the operator its name denotes (all 197 helpers, all immediates; C24's family), add_local / add_locals bookkeeping on the builder (C14's family), ValType::from(&DataType) for declared types (K-conv), Module::add_local_func_with_tag ids and bookkeeping (K-ops). (M) Engine M (module-level translation validation): functions are built through the real FunctionBuilder API (new with parameter types, add_local, set_name, opcode helpers, finish_module) inside edit histories of <= 2 (quick) / 3 (thorough) steps that also add/delete imports, functions, globals and memories around them, on engine M's base module; the real encode() output is decoded and every built function - found through an export made with the RETURNED FunctionID - must have exactly the requested parameter and result types, the declared locals, the built opcode sequence followed by one `end`, and the name that was set; z3 decides for all host values that the function's value (hence every entity its call / global.get / i32.load immediates designate) is the one the builder was given.",
+     technique="z3 equivalence of the instantiation semantics of the real encoder's output with a label-based reference model + exact comparison of signature / locals / opcode sequence / name of every built function, over bounded-exhaustive builder-and-edit histories (engine M) + Kani/CBMC bounded model checking of the opcode helpers, local bookkeeping and add_local_func",
+     outside="FunctionBuilder::finish_module itself is executed natively, not symbolically (CBMC runs out of memory on Operator::clone, DESIGN.md section 1); result types other than [i32], multi-value, control flow inside built bodies (engine T's subject), finish_component; 4 builder shapes (<= 2 params, <= 4 locals, <= 4 instructions)" + M_OUT)
